@@ -1017,3 +1017,75 @@ pub fn linearizable(p: &Program, h: &crate::hist::History) -> Result<(), String>
         }
     ))
 }
+
+/// States the single thread of a sequential program can be in right after its
+/// last operation (before the end-of-thread drops), with results dropped and
+/// tags renamed in order of appearance: two call sequences that reach the same
+/// key are, for the reference model, the same channel state.
+pub fn abstract_states_after(p: &Program) -> Vec<World> {
+    let mode = Mode { concurrent: false };
+    let n = p.threads[0].ops.len();
+    let mut out: Vec<World> = Vec::new();
+    let mut seen: HashSet<World> = HashSet::new();
+    let mut stack = vec![World::new(p)];
+    while let Some(w) = stack.pop() {
+        if w.th[0].pc >= n && w.th[0].phase == Phase::Idle {
+            let k = w.canonical();
+            if !out.contains(&k) {
+                out.push(k);
+            }
+            continue;
+        }
+        for nx in w.steps(p, 0, mode) {
+            if seen.insert(nx.clone()) {
+                stack.push(nx);
+            }
+        }
+    }
+    out
+}
+
+impl World {
+    /// results / program counter dropped, tags renamed by first appearance
+    pub fn canonical(&self) -> World {
+        let mut w = self.clone();
+        w.results.clear();
+        w.destroyed.clear();
+        for t in w.th.iter_mut() {
+            t.pc = 0;
+        }
+        let mut map: Vec<Tag> = Vec::new();
+        let mut ren = |t: &mut Tag| {
+            if *t == 0 {
+                return;
+            }
+            let i = match map.iter().position(|x| x == t) {
+                Some(i) => i,
+                None => {
+                    map.push(*t);
+                    map.len() - 1
+                }
+            };
+            *t = 1000 + i as Tag;
+        };
+        for t in w.ch.queue.iter_mut() {
+            ren(t);
+        }
+        for x in w.ch.waiters.iter_mut() {
+            ren(&mut x.tag);
+        }
+        for d in w.done.iter_mut() {
+            if let Res::Val(t) = &mut d.1 {
+                ren(t);
+            }
+        }
+        for th in w.th.iter_mut() {
+            for f in th.futs.iter_mut() {
+                if let Fut::Send(t, _) = f {
+                    ren(t);
+                }
+            }
+        }
+        w
+    }
+}
